@@ -48,6 +48,9 @@ def cases(tier):
             if k == 6 and i % 10:
                 continue
             out.append({"dim": 3, "fam": "s3", "pts": S, "pl": pq[i % 8]})
+            if i % 10 == 0:
+                tp = A.placements_tiny()
+                out.append({"dim": 3, "fam": "s3", "pts": S, "pl": tp[(i // 10) % len(tp)]})
     for i, name in enumerate(sorted(_tab())):
         if name.startswith("science"):
             if q and i % 3:
@@ -57,6 +60,9 @@ def cases(tier):
         if q and i % 3:
             continue
         out.append({"dim": 2, "fam": "cp2", "poly": [list(p) for p in c], "pl": PL3[i % 8]})
+        if i % 12 == 0:
+            tp = A.placements_tiny()
+            out.append({"dim": 2, "fam": "cp2", "poly": [list(p) for p in c], "pl": tp[(i // 12) % len(tp)]})
     for n in range(3, 31):
         out.append({"dim": 2, "fam": "ngon", "n": n, "phase": (n % 7) * math.pi / 7, "pl": PL3[n % 8]})
     return out
